@@ -32,6 +32,7 @@ CFG = {
         "Swat4.C15.facts_cycle_deadline",
         "Swat4.C15.facts_deadline_is_next_tick",
         "Swat4.C15.facts_cycle_context",
+        "Swat4.C15.facts_cycle_not_cancelled_in_flight",
     ],
     "shards": (4, 16),
     "nontrivial": _nontrivial,
